@@ -16,7 +16,7 @@ F = [
       mechanism='two parameters of one node bound to the same upstream node collapse into one graph edge (nx.DiGraph holds one edge '
                 'A->B; the second kwarg_name overwrites the first, builder.py _add_node_pair_to_dag), so one parameter is silently not supplied',
       witness={'C15': 'witnesses/KF-DUP-build.json', 'C03': 'witnesses/KF-DUP.json'}),
- dict(id='KF-REC2', family='rec_two_scopes', properties=RUNP + ['C19'], kinds=GEN,
+ dict(id='KF-REC2', family='rec_two_scopes', properties=RUNP + ['C19'], kinds=GEN + HANG,
       mechanism='a recurrent destination that is reached from two sub-pipeline scopes (main pipeline and a switch case / one-of candidate / '
                 'second execution of a switch): while the subgraph re-iterates, the second scope takes the duplicate-request path of '
                 '_execute_node, reads the hidden result as None and _run_node stores and propagates that None (manager.py 309-314, 645-646)',
@@ -45,6 +45,7 @@ F = [
 for f in F:
     f['status'] = 'open'
 FIXED = [
+ 'fixed: property=C02 60096c3 hang: failure in a recurrent re-iteration consumed by a switch case inside a one-of candidate (witnesses/D25.json)',
  'fixed: property=C19 d9926cd a late duplicate request for an already executed node re-saved its result: a write-once store failed an otherwise correct run (witnesses/D24.json)',
  'fixed: property=C10 eeef9a0 a failure inside a switch case inside a one-of candidate: consumer invoked with the exception instance / hang (witnesses/D11.json); also C02 C03 C05',
  'fixed: property=C10 993066e started one-of candidates stayed visible in every later reduced DAG: healthy candidate declared failed, candidate executed by a foreign scope (witnesses/D21.json); also C01 C05',
